@@ -140,14 +140,8 @@ def drange(t0 = None, t1 = None, bump = None):
     if bump is None:
         bump = 1 if t0<t1 else -1
     if is_int(bump):
-        if (t1-t0).days * bump <= 0:
-            raise ValueError('cannot go from %s to %s in steps of %s'%(t0,t1,bump))
-        freq = DAILY
-        res = list(rrule(freq, interval = 1, dtstart = min(t0,t1), until = max(t0,t1))) # unfortunately does not actually work for negative bumps
-        res = res[::-1] if bump<0 else res
-        res = res[::abs(bump)] if abs(bump)>1 else res
-        return res
-    elif isinstance(bump, datetime.timedelta):
+        bump = datetime.timedelta(days = int(bump)) # n is n days: same list as timedelta(n), starting at t0 whatever the times of day of t0 and t1
+    if isinstance(bump, datetime.timedelta):
         t = t0
         res = []
         if t1>t0: 
